@@ -2030,6 +2030,7 @@ func (f *formatter) NameName(n *ast.Name) {
 			separatorTkns[i] = f.newToken(token.T_NS_SEPARATOR, []byte("\\"))
 		}
 	}
+	n.SeparatorTkns = separatorTkns
 }
 
 func (f *formatter) NameFullyQualified(n *ast.NameFullyQualified) {
@@ -2043,6 +2044,7 @@ func (f *formatter) NameFullyQualified(n *ast.NameFullyQualified) {
 			separatorTkns[i] = f.newToken(token.T_NS_SEPARATOR, []byte("\\"))
 		}
 	}
+	n.SeparatorTkns = separatorTkns
 }
 
 func (f *formatter) NameRelative(n *ast.NameRelative) {
@@ -2057,6 +2059,7 @@ func (f *formatter) NameRelative(n *ast.NameRelative) {
 			separatorTkns[i] = f.newToken(token.T_NS_SEPARATOR, []byte("\\"))
 		}
 	}
+	n.SeparatorTkns = separatorTkns
 }
 
 func (f *formatter) NameNamePart(n *ast.NamePart) {
